@@ -6,15 +6,29 @@ From Verif Require Import Common.ListIdx Model.C19 Proofs.C19.
 Import ListNotations.
 Open Scope Z_scope.
 
+(* All three main theorems hold for EVERY eviction policy that only removes
+   entries, never removes the requested chunk and removes exactly one entry
+   when two or more are held ([policy_ok]) -- "whatever the eviction history".
+   The policy of the code ([evict]: oldest chunk other than chunk 0 and the
+   requested one) is one instance; un-pinning chunk 0 is another. *)
+Theorem C19_code_policy_ok : policy_ok evict.
+Proof. exact evict_policy_ok. Qed.
+Print Assumptions C19_code_policy_ok.
+
+Theorem C19_unpinned_policy_ok : policy_ok evict_unpinned.
+Proof. exact evict_unpinned_policy_ok. Qed.
+Print Assumptions C19_unpinned_policy_ok.
+
 (* One call of read_range_cached on any cache state reachable so far returns
    exactly res[start : min stop len], whatever the server answers to invalid
    range requests, and keeps the cache correct and within capacity. *)
 Theorem C19_range_read_exact :
-  forall (res : list Z) (junk : Z -> Z -> list Z) (cs keep : Z),
-    0 < cs -> 1 <= keep ->
+  forall (res : list Z) (junk : Z -> Z -> list Z) (cs keep : Z)
+         (ev : Z -> cache -> cache),
+    0 < cs -> 1 <= keep -> policy_ok ev ->
     forall (start stop : Z) (c : cache),
       Good res cs c -> Bnd keep c -> 0 <= start ->
-      exists c', rrc res junk cs keep start stop c
+      exists c', rrc res junk cs keep ev start stop c
                  = (c', Some (slice res start (Z.min stop (len res))))
                  /\ Good res cs c' /\ Bnd keep c'.
 Proof. exact rrc_correct. Qed.
@@ -24,27 +38,74 @@ Print Assumptions C19_range_read_exact.
    including "to the end") behaves exactly like an in-memory file holding the
    resource: same bytes, same positions, never an error. *)
 Theorem C19_history_equals_plain_file :
-  forall (res : list Z) (junk : Z -> Z -> list Z) (cs keep : Z),
-    0 < cs -> 1 <= keep ->
+  forall (res : list Z) (junk : Z -> Z -> list Z) (cs keep : Z)
+         (ev : Z -> cache -> cache),
+    0 < cs -> 1 <= keep -> policy_ok ev ->
     forall ops : list op,
       pos_ok res 0 ops = true ->
-      snd (run res junk cs keep init ops) = spec_run res 0 ops.
+      snd (run res junk cs keep ev init ops) = spec_run res 0 ops.
 Proof. exact ops_history. Qed.
 Print Assumptions C19_history_equals_plain_file.
 
-(* After every operation of every history the number of chunks held is at
-   most keep_chunks (no hypothesis on positions is needed). *)
+(* Between operations the number of chunks held is at most keep_chunks, for
+   every history (no hypothesis on positions is needed) ... *)
 Theorem C19_cache_never_exceeds_capacity :
-  forall (res : list Z) (junk : Z -> Z -> list Z) (cs keep : Z),
-    1 <= keep ->
+  forall (res : list Z) (junk : Z -> Z -> list Z) (cs keep : Z)
+         (ev : Z -> cache -> cache),
+    0 < cs -> 1 <= keep -> policy_ok ev ->
     forall (ops : list op) (s : state),
-      Bnd keep (chunks s) -> run_maxheld res junk cs keep s ops <= keep.
-Proof. exact cache_bounded. Qed.
+      Bnd keep (chunks s) -> run_maxheld res junk cs keep ev s ops <= keep.
+Proof. exact cache_bounded_cs. Qed.
 Print Assumptions C19_cache_never_exceeds_capacity.
 
-(* The code before the repairs (96f1c8a, d7d4e3b) violated the history
-   theorem; witnesses replayed on the old implementation are the findings
-   recorded as "fixed" in known_findings.json. *)
+(* ... and at every moment, including the instant inside get_cache_chunk
+   between storing a downloaded chunk and evicting another, at most
+   keep_chunks + 1. The "+ 1" is attained (second theorem): the code stores
+   before it evicts, so the configured number is exceeded by the one chunk
+   being handed out, for the duration of one dict operation. *)
+Theorem C19_transient_at_most_capacity_plus_one :
+  forall (res : list Z) (junk : Z -> Z -> list Z) (cs keep : Z)
+         (ev : Z -> cache -> cache),
+    0 < cs -> 1 <= keep -> policy_ok ev ->
+    forall (ops : list op) (s : state),
+      Bnd keep (chunks s) -> run_peak res junk cs keep ev s ops <= keep + 1.
+Proof. exact peak_bounded_cs. Qed.
+Print Assumptions C19_transient_at_most_capacity_plus_one.
+
+Theorem C19_transient_reaches_capacity_plus_one :
+  exists ops, pos_ok res10 0 ops = true
+    /\ run_peak res10 (fun _ _ => []) 4 2 evict init ops = 3
+    /\ run_maxheld res10 (fun _ _ => []) 4 2 evict init ops = 2.
+Proof. exact peak_reaches_keep_plus_one. Qed.
+Print Assumptions C19_transient_reaches_capacity_plus_one.
+
+(* Second sentence of the property ("consequently a dataset opened over HTTP
+   exposes the same ... as the same file opened locally"): ANY client whose
+   next operation is a function of the answers it has received so far (h5py
+   parsing the file is such a client) sees exactly the transcript it would
+   see on a plain file, for any number of steps. What the client computes
+   from the transcript is therefore the same. (That h5py is such a function
+   of the answers is the trusted part; harness: RTDC_HTTP vs RTDC_HDF5.) *)
+Theorem C19_adaptive_client_sees_plain_file :
+  forall (res : list Z) (junk : Z -> Z -> list Z) (cs keep : Z)
+         (ev : Z -> cache -> cache),
+    0 < cs -> 1 <= keep -> policy_ok ev ->
+    forall (fuel : nat) (rd : reader),
+      reader_pos_ok res fuel rd 0 [] = true ->
+      interact res junk cs keep ev fuel rd init []
+      = spec_interact res fuel rd 0 [].
+Proof. exact reader_history. Qed.
+Print Assumptions C19_adaptive_client_sees_plain_file.
+
+(* HISTORICAL (no live tie: [run_old] models code that no longer exists in
+   /repo). The code before the repairs (96f1c8a, d7d4e3b) violated the history
+   theorem; these witnesses, replayed on the old implementation, are the
+   defects recorded as "fixed" in known_findings.json. Its eviction policy
+   does not meet [policy_ok]. *)
+Theorem C19_old_policy_not_ok : ~ policy_ok (fun _ c => evict_old c).
+Proof. exact evict_old_not_policy_ok. Qed.
+Print Assumptions C19_old_policy_not_ok.
+
 Theorem C19_old_keep1_keyerror_refuted :
   exists ops, pos_ok res10 0 ops = true
     /\ run_old res10 (fun _ _ => []) 4 1 init ops <> spec_run res10 0 ops
@@ -76,6 +137,6 @@ Print Assumptions C19_old_read0_moves_refuted.
 
 (* keep_chunks >= 1 is necessary for the capacity theorem *)
 Theorem C19_keep0_bound_refuted :
-  exists ops, run_maxheld res10 (fun _ _ => []) 4 0 init ops > 0.
+  exists ops, run_maxheld res10 (fun _ _ => []) 4 0 evict init ops > 0.
 Proof. exact keep0_bound_fails. Qed.
 Print Assumptions C19_keep0_bound_refuted.
